@@ -133,6 +133,23 @@ class _AsyncResult(object):
         return True
 
 
+def _boundary(obj):
+    import pickle
+    try:
+        return pickle.loads(pickle.dumps(obj, protocol=pickle.HIGHEST_PROTOCOL))
+    except Exception:
+        return obj          # (unpicklable objects would fail in the real pool; here they pass through unchanged)
+
+
+_CURRENT_CHOOSER = [None]      # the chooser of the execution in progress (set by patched_pools / set_current_chooser)
+
+
+def set_current_chooser(ch):
+    """bind every controlled pool - also pools that the library created during an EARLIER execution and kept (a
+    module-level pool cache is legitimate) - to the chooser of the execution that starts now"""
+    _CURRENT_CHOOSER[0] = ch
+
+
 class ControlledPool(object):
     """In-process double of multiprocessing.pool.Pool driven by a Chooser.
 
@@ -143,7 +160,7 @@ class ControlledPool(object):
     MAX_TIMEOUTS = 3        # bound on the number of get()/wait() timeouts that fire per pool (fairness)
 
     def __init__(self, chooser, processes=None, initializer=None, initargs=(), *a, **kw):
-        self._chooser = chooser
+        self._own_chooser = chooser
         self._k = int(processes) if processes else (os.cpu_count() or 1)
         if self._k < 1:
             raise ValueError("Number of processes must be at least 1")
@@ -156,8 +173,22 @@ class ControlledPool(object):
         self._timeouts_left = self.MAX_TIMEOUTS
         self._record = {"k": self._k, "chunks": [], "apis": [], "completion": self._order}
         chooser.orders.append(self._record)
+        self._record_owner = chooser
         if initializer is not None:
             initializer(*initargs)
+
+    @property
+    def _chooser(self):
+        cur = _CURRENT_CHOOSER[0]
+        ch = cur if cur is not None else self._own_chooser
+        if ch is not self._record_owner:
+            # a pool that outlived the execution that created it: it gets a fresh record in the new execution
+            self._order = []
+            self._record = {"k": self._k, "chunks": [], "apis": [], "completion": self._order, "reused_pool": True}
+            ch.orders.append(self._record)
+            self._record_owner = ch
+            self._timeouts_left = self.MAX_TIMEOUTS
+        return ch
 
     # ---- engine
     def _submit(self, api, func, items, star, chunksize=None, on_chunk=None):
@@ -208,8 +239,9 @@ class ControlledPool(object):
         self._running.remove(q)
         b, ci, ch = self._queue[q]
         for t in ch:
-            it = b["items"][t]
-            b["results"][t] = b["func"](*it) if b["star"] else b["func"](it)
+            # a task's arguments and its result cross a process boundary in the real pool: exact copies both ways
+            it = _boundary(b["items"][t])
+            b["results"][t] = _boundary(b["func"](*it) if b["star"] else b["func"](it))
         b["done_order"].append(ci)
         self._done.add(q)
         self._order.append(q)
@@ -564,4 +596,89 @@ class patched_executors(object):
     def __exit__(self, *exc):
         for m, k, v in self.saved:
             setattr(m, k, v)
+        return False
+
+
+
+class patched_pools(object):
+    """context manager: every way a module of the library can reach a process pool is redirected to controlled pools
+    driven by `chooser` (chooser=None: a chooser that always takes the default, i.e. an in-line FIFO pool):
+    `multiprocessing.Pool`, `multiprocessing.pool.Pool`, `multiprocessing.get_context(...).Pool`, and inside every
+    loaded module whose name starts with `module_prefix` any attribute bound to the `multiprocessing` module, to
+    `multiprocessing.Pool` or to the `multiprocessing.pool.Pool` class (`import multiprocessing`, `import
+    multiprocessing as mp`, `from multiprocessing import Pool`, `from multiprocessing.pool import Pool`).
+    Pools support the whole Pool API (context manager, chunksize, map/starmap/imap/imap_unordered/apply_async/...).
+    `.pools_created` counts the pools made inside the block."""
+
+    def __init__(self, chooser=None, module_prefix="aotools"):
+        self.chooser = chooser if chooser is not None else Chooser(())
+        self.prefix = module_prefix
+        self.saved = []
+        self.pools_created = 0
+
+    def __enter__(self):
+        import multiprocessing as mp
+        import multiprocessing.pool as mpp
+        import sys
+        outer = self
+        set_current_chooser(self.chooser)
+        fake = FakeMultiprocessing(self.chooser)
+
+        def factory(processes=None, *a, **kw):
+            outer.pools_created += 1
+            return ControlledPool(outer.chooser, processes, *a, **kw)
+
+        class _Ctx(object):
+            Pool = staticmethod(factory)
+
+            def __getattr__(self, name):
+                return getattr(mp, name)
+
+        class _FakeModule(object):
+            """the multiprocessing module with its pools replaced (everything else is the real thing)"""
+            Pool = staticmethod(factory)
+            pool = None
+
+            def get_context(self, method=None):
+                return _Ctx()
+
+            def __getattr__(self, name):
+                return getattr(mp, name)
+        fm = _FakeModule()
+
+        class _FakePoolModule(object):
+            Pool = staticmethod(factory)
+            ThreadPool = staticmethod(factory)
+
+            def __getattr__(self, name):
+                return getattr(mpp, name)
+        _FakeModule.pool = _FakePoolModule()
+        self.fake_module = fm
+        real_pool_fn, real_pool_cls, real_ctx = mp.Pool, mpp.Pool, mp.get_context
+        for obj, name, new in ((mp, "Pool", factory), (mpp, "Pool", factory), (mp, "get_context", lambda method=None: _Ctx())):
+            self.saved.append((obj, name, getattr(obj, name)))
+            setattr(obj, name, new)
+        mods = [m for n, m in list(sys.modules.items())
+                if m is not None and (n == self.prefix or n.startswith(self.prefix + "."))]
+        for m in mods:
+            for k, v in list(vars(m).items()):
+                new = None
+                if v is mp:
+                    new = fm
+                elif v is mpp:
+                    new = _FakeModule.pool
+                elif v is real_pool_cls or getattr(v, "__func__", None) is getattr(real_pool_fn, "__func__", object()) or v is real_pool_fn:
+                    new = factory
+                elif v is real_ctx:
+                    new = lambda method=None: _Ctx()
+                if new is not None:
+                    self.saved.append((m, k, v))
+                    setattr(m, k, new)
+        return self
+
+    def __exit__(self, *exc):
+        for m, k, v in reversed(self.saved):
+            setattr(m, k, v)
+        self.saved = []
+        set_current_chooser(None)
         return False
